@@ -108,7 +108,33 @@ def tlc(module, cfg=None, workers=None, simulate=None, depth=None, tlc_seed=None
         extra_files=None, coverage=False, deque=False, constants=None, want_scn=True, heap=None):
     """Run TLC on spec/<module>.tla with spec/<cfg> in a scratch copy of the spec directory.
     constants: dict name -> TLA text, appended to a copy of the cfg as CONSTANT lines.
-    extra_files: dict filename -> content, placed beside the spec (traces)."""
+    extra_files: dict filename -> content, placed beside the spec (traces).
+    -simulate: `num` is per worker and every simulation worker draws the SAME RandomElement sequence for a given
+    seed (measured: 4 workers x 50 = 50 distinct behaviours), so a simulation asked for with w workers is run as
+    w single-worker TLC processes in parallel with seeds derived from tlc_seed, and their results are merged."""
+    w = workers or NCPU
+    if simulate is None or w == 1:
+        return _tlc(module, cfg, w, simulate, depth, tlc_seed, timeout, extra_files, coverage, deque, constants, want_scn, heap)
+    import concurrent.futures
+    base = 1 if tlc_seed is None else tlc_seed
+    with concurrent.futures.ThreadPoolExecutor(max_workers=w) as ex:
+        futs = [ex.submit(_tlc, module, cfg, 1, simulate, depth, base * 1000 + i, timeout, extra_files, coverage, deque,
+                          constants, want_scn, heap) for i in range(w)]
+        parts = [f.result() for f in futs]
+    r = parts[0]
+    for q in parts[1:]:
+        r.scn += q.scn
+        r.generated += q.generated
+        r.distinct += q.distinct
+        r.out += q.out
+        r.wall = max(r.wall, q.wall)
+        if q.rc != 0 and r.rc == 0:
+            r.rc = q.rc
+        r.violated = r.violated or q.violated
+    return r
+
+
+def _tlc(module, cfg, workers, simulate, depth, tlc_seed, timeout, extra_files, coverage, deque, constants, want_scn, heap):
     wd = tempfile.mkdtemp(prefix="tlc-", dir=scratch())
     for f in os.listdir(SPEC):
         if f.endswith(".tla") or f.endswith(".cfg"):
@@ -139,8 +165,9 @@ def tlc(module, cfg=None, workers=None, simulate=None, depth=None, tlc_seed=None
         jopts += " -Xmx%s" % heap
     jopts += " -Xss64m"
     env = dict(os.environ, JAVA_TOOL_OPTIONS=jopts)
+    w = workers
     cmd = ["timeout", str(int(timeout)), "tlc", "-noGenerateSpecTE", "-metadir", os.path.join(wd, "meta"),
-           "-workers", str(workers or NCPU), "-config", cfg]
+           "-workers", str(w), "-config", cfg]
     if simulate is not None:
         cmd += ["-simulate", "num=%d" % simulate]
     if depth is not None:
